@@ -716,10 +716,19 @@ class DynamicsSelector(abc.Mapping):
         if isinstance(transitions, ReactionInfo):
             transitions = transitions.transitions
         self.__choices: dict[TwoBodyDecay, ResonanceDynamicsBuilder] = {}
+        # decays in decay chains that are symmetrized over identical final-state
+        # particles get the same dynamics as the decay they originate from
+        self.__symmetrized: dict[TwoBodyDecay, set[TwoBodyDecay]] = {}
         for transition in transitions:
-            for node_id in transition.topology.nodes:
-                decay = TwoBodyDecay.from_transition(transition, node_id)
-                self.__choices[decay] = create_non_dynamic
+            for graph in _perform_combinatorics(transition):
+                symmetrized_transition = _freeze(graph)
+                for node_id in transition.topology.nodes:
+                    decay = TwoBodyDecay.from_transition(transition, node_id)
+                    twin = TwoBodyDecay.from_transition(symmetrized_transition, node_id)
+                    self.__choices[decay] = create_non_dynamic
+                    self.__choices[twin] = create_non_dynamic
+                    self.__symmetrized.setdefault(decay, set()).add(twin)
+                    self.__symmetrized.setdefault(twin, set()).add(decay)
 
     @singledispatchmethod
     def assign(  # noqa: PLR6301
@@ -742,6 +751,8 @@ class DynamicsSelector(abc.Mapping):
     @assign.register(TwoBodyDecay)
     def _(self, decay: TwoBodyDecay, builder: ResonanceDynamicsBuilder) -> None:
         self.__choices[decay] = builder
+        for twin in self.__symmetrized.get(decay, ()):
+            self.__choices[twin] = builder
 
     @assign.register(tuple)
     def _(
